@@ -73,6 +73,7 @@ type ACfg struct {
 	AMaster   string          `json:"amaster"`
 	ATerm     int             `json:"aterm"`
 	Values    map[string]AVal `json:"values"`
+	AValues   map[string]AVal `json:"avalues"`
 	Ver       int             `json:"ver"`
 }
 
@@ -301,7 +302,7 @@ func projCfg(w *World, c *configapi.Configuration) ACfg {
 		Applied: int(c.Status.Applied.Index), State: c.Status.State.String(),
 		Master: c.Status.Mastership.Master, Term: int(c.Status.Mastership.Term),
 		AMaster: c.Status.Applied.Mastership.Master, ATerm: int(c.Status.Applied.Mastership.Term),
-		Values: avals(c.Values), Ver: w.ver("cfg", string(c.ID)),
+		Values: avals(c.Values), AValues: avals(c.Status.Applied.Values), Ver: w.ver("cfg", string(c.ID)),
 	}
 }
 
@@ -389,7 +390,9 @@ func (w *World) snapshot(l *Line) error {
 			RespIdx: h.RespIdx, RespOwn: h.RespID != "" && h.RespID == h.txID, Results: h.Results}
 		switch {
 		case h.lost:
+			// the client saw its connection die: whatever the unwinding handler goroutine computed is not an answer
 			ah.St = "lost"
+			ah.OK, ah.Code, ah.RespIdx, ah.RespOwn, ah.Results = false, 0, 0, false, nil
 		case h.fin:
 			ah.St = "done"
 		case h.watching:
